@@ -83,6 +83,22 @@ func init() {
 		in.lastTime = t
 		return structure{in.ts.BV(0, 64), t, (*value)(nil)}
 	}, "time.Now")
+	// time.NewTicker: the first ticker created on a path delivers exactly one tick, later ones never
+	// fire (used to step a select loop once)
+	reg(func(fr *frame, args []value) value {
+		in := fr.in
+		ch := &schan{cap: 1}
+		if in.tickers == 0 {
+			ch.buf = append(ch.buf, structure{in.ts.BV(0, 64), in.ts.BV(0, 64), (*value)(nil)})
+		} else {
+			ch.never = true
+		}
+		in.tickers++
+		// Ticker{C <-chan Time; r runtimeTimer / initTicker bool}: only C is used by callers
+		var cell value = structure{ch, opaque{"ticker internals"}, opaque{"ticker internals"}}
+		return &cell
+	}, "time.NewTicker")
+	reg(func(fr *frame, args []value) value { return nil }, "(*time.Ticker).Stop", "(*time.Ticker).Reset")
 	neverChan := func(fr *frame, args []value) value { return &schan{never: true} }
 	reg(neverChan, "time.After", "time.Tick")
 
